@@ -212,7 +212,8 @@ def make_cases(tier, profile):
     J = ['no_panic', 'inv', 'chanmode']
     ms = ['+i', '-i', '+m', '-t', '+n', '+s', '-s', '+k K2', '-k', '+l 5', '-l', '+l 18446744073709551615', '+b bob!*@*', '-b a*!*@*', '+b carol', '+e x@y',
           '-e bob!*@*', '+I *!*@*', '-I a*!*@*', '+o bob', '-o bob', '+v bob', '-v carol', '+h carol', '-h bob', '+q bob', '-q alice', '+a bob', '-a carol', '+o dave', '+o alice', '-o alice',
-          '+im-t', '+ov bob carol', '+b', '+e', '+I', '', '+kl K2 3', '+o-v bob bob', '+ib-s a!b@c']
+          '+im-t', '+ov bob carol', '+b', '+e', '+I', '', '+kl K2 3', '+o-v bob bob', '+ib-s a!b@c',
+          '-e bob', '-b bob', '-I bob', '-e bob@*', '-b bob!*', '+e bob', '+I bob!*']      # short forms that complete to the stored mask bob!*@*: removal/insertion must act on the completed mask
     if tier != 'quick':
         ms += ['+imtns', '-imtns', '+qaohv bob bob bob bob bob', '+b-b m1 m1', '+l-l 4', '+k-k K3', '-qaohv alice alice alice alice alice', '+o+h bob carol', '+beI m1 m2 m3', '+v-v+v bob bob bob']
     cases = []
